@@ -51,6 +51,11 @@ def filesOk (hasOutput ok : Bool) (txt json : Option (List String)) : Bool :=
   (txt == none || txt == some docPathStrs) && (json == none || json == some docPathStrs) &&
   (!(ok && hasOutput) || (txt == some docPathStrs && json == some docPathStrs))
 
+/-- the device acknowledged the unlock (Ledger UNLOCK / SGX unlock answered "unlocked") -/
+def unlockAcknowledged (ps : List (Bytes × Resp)) : Bool :=
+  ps.any fun p => (cmdOf p.1 == 0xFE || cmdOf p.1 == 0xA3) &&
+    (match p.2 with | .data b => b.getD 2 0 != 0 | _ => false)
+
 structure Obs where
   events : List Ev
   ok : Bool
@@ -79,6 +84,9 @@ def c18 (cmd : String) (anyPin : Bool) (pinGiven : Bool) (seed : Bytes) (stdinLi
     let pre := takeUntil (fun p => sensitiveUnlock p.1) ps
     (!(as.any sensitiveUnlock) ||
       (bootloaderEchoed pre && answered pre 0x06 (fun _ b => b.getD 1 0 == 1))) &&
+    -- "when the preconditions hold the operation is carried out": once the device has acknowledged
+    -- the unlock, the unlock command ends normally, whatever becomes of the exit that follows
+    (cmd != "unlock" || !unlockAcknowledged ps || o.ok) &&
     -- public keys are asked for the six documented paths, in the documented order
     (cmd != "pubkeys" || !o.ok ||
       (as.filter (cmdOf · == 0x04)).map (·.drop 2) ==
